@@ -149,9 +149,10 @@ func NewModel(g *GenSpec) *Model {
 		Allow: Big(orZero(lg.Allowance)), Bal: map[string]*big.Int{}, Supply: map[string]*big.Int{}, BL: map[string]bool{}, Burned: new(big.Int), Minted: new(big.Int)}
 	for _, b := range lg.Balances {
 		addr := sdk.MustAccAddressFromBech32(b.Addr)
-		k := balKey(addr, b.Denom)
+		bd := m.L.norm(b.Denom)
+		k := balKey(addr, bd)
 		m.L.Bal[k] = new(big.Int).Add(m.L.bal(k), Big(b.Amount))
-		m.L.Supply[b.Denom] = new(big.Int).Add(m.L.sup(b.Denom), Big(b.Amount))
+		m.L.Supply[bd] = new(big.Int).Add(m.L.sup(bd), Big(b.Amount))
 	}
 	for _, a := range lg.Blacklist {
 		m.L.BL[Hex(sdk.MustAccAddressFromBech32(a))] = true
@@ -178,6 +179,9 @@ func (l *LedgerModel) sup(d string) *big.Int {
 	}
 	return new(big.Int)
 }
+// NDenom is the minting denom as the ledger keys it (lower-cased in fold mode).
+func (l *LedgerModel) NDenom() string { return l.norm(l.Denom) }
+
 func (l *LedgerModel) norm(d string) string {
 	if l.Fold {
 		return strings.ToLower(d)
@@ -535,7 +539,7 @@ func (m *Model) send(from string, dest uint32, recip, caller, body []byte, withC
 
 // tokenIsMintingDenom judges the burn token as the dependency in force does.
 func (m *Model) tokenIsMintingDenom(tok string) bool {
-	return m.L.norm(tok) == m.L.Denom
+	return m.L.norm(tok) == m.L.NDenom()
 }
 
 func (m *Model) deposit(from string, amt *big.Int, amtNil bool, dest uint32, mr []byte, tok string, caller []byte, withCaller bool, tx *TxCtx) *Expect {
@@ -560,10 +564,10 @@ func (m *Model) deposit(from string, amt *big.Int, amtNil bool, dest uint32, mr 
 	canPay, burnOK := true, true
 	if pre {
 		f0 := tx.nextFault()
-		canPay = !f0 && !(m.L.Paused && denom == m.L.Denom) && !m.L.BL[Hex(fromB)] && !m.L.BL[Hex(ModuleAddrBytes())] && m.L.bal(balKey(fromB, denom)).Cmp(amt) >= 0
+		canPay = !f0 && !(m.L.Paused && denom == m.L.NDenom()) && !m.L.BL[Hex(fromB)] && !m.L.BL[Hex(ModuleAddrBytes())] && m.L.bal(balKey(fromB, denom)).Cmp(amt) >= 0
 		if canPay {
 			f1 := tx.nextFault()
-			burnOK = !f1 && m.L.Minter && !m.L.BL[Hex(ModuleAddrBytes())] && denom == m.L.Denom && !m.L.Paused
+			burnOK = !f1 && m.L.Minter && !m.L.BL[Hex(ModuleAddrBytes())] && denom == m.L.NDenom() && !m.L.Paused
 		}
 	}
 	c["can-pay"] = canPay
@@ -661,7 +665,7 @@ func (m *Model) receive(x *types.MsgReceiveMessage, tx *TxCtx) *Expect {
 				mintTo = bm.MintRecip[12:]
 				f := tx.nextFault()
 				c["M6-mint"] = !f && m.L.Minter && !m.L.BL[Hex(ModuleAddrBytes())] && !m.L.BL[Hex(mintTo)] &&
-					m.L.norm(mintDenom) == m.L.Denom && sdk.ValidateDenom(mintDenom) == nil && mintAmt.Sign() > 0 && m.L.Allow.Cmp(mintAmt) >= 0 && !m.L.Paused
+					m.L.norm(mintDenom) == m.L.NDenom() && sdk.ValidateDenom(mintDenom) == nil && mintAmt.Sign() > 0 && m.L.Allow.Cmp(mintAmt) >= 0 && !m.L.Paused
 			}
 		}
 	}
